@@ -13,6 +13,7 @@ const govK = "(x/gov/keeper.Keeper)."
 
 func checkC17(r *Run) {
 	P := r.P
+	govReadsAreFresh(r, "C17-R5")
 	g := P.CG()
 	r.NotDecided("the behaviour of amino/JSON decoding of a parameter value (a malformed value from the rightful owner makes Subspace.Update return an error that ModifyParam drops: nothing is written but the result is OK — recorded as an observation, outside the statement, which is about non-owners)")
 	r.NotDecided("ownership hand-over histories (decided: each single change is authorised against the ACL stored at that moment)")
